@@ -172,8 +172,20 @@ func (t *sseClientTransport) start(ctx context.Context) error {
 		}
 	}
 
+	// The stream outlives ctx, but while it is being established the caller's cancellation
+	// and deadline are honoured.
+	connected := make(chan struct{})
+	go func() {
+		select {
+		case <-ctx.Done():
+			cancel()
+		case <-connected:
+		}
+	}()
+
 	// Send the request.
 	resp, err := t.httpReqHandler.Handle(sseCtx, t.httpClient, req)
+	close(connected)
 	if err != nil {
 		return fmt.Errorf("%w: %v", ErrHTTPRequestFailed, err)
 	}
